@@ -387,8 +387,15 @@ def rule_d(ctx):
         continue
       path, target, field, old, new = fu.args[:5]
       pt = A.unparse(path, 200)
-      if not pt.startswith('self.sym_path +'):
-        problems.append(f'path is `{pt}`, not self.sym_path + key')
+      # the node's own path extended by the key written (which form of extension is right for
+      # a str key is C09.k / C10.k: `+` parses a str, KeyPath(key, parent) does not)
+      keyp = f.node.args.args[1].arg
+      names = set(A.names_read(path))
+      # the key parameter itself, or a local derived from it (`index = key`)
+      derived = {keyp} | {nm for nm in names for _, v in D.defs_of(f.node, nm)
+                          if v is not None and keyp in A.names_read(v)}
+      if 'self.sym_path' not in pt or not (derived & names):
+        problems.append(f'path is `{pt}`, not the path of self extended by the key written')
       # target: the container itself; for an attribute container the owning object
       tv = _leaf_values(idx, f, target)
       want = {'self'} if cls_fq == S.LIST else {'self', 'self.sym_parent'}
@@ -421,7 +428,7 @@ def rule_d(ctx):
         if isinstance(old, ast.Name) and old.id == new.id:
           problems.append('old and new value are the same variable')
     ctx.ob('C09.d', f.fq, not problems,
-           'FieldUpdate carries self.sym_path + key, the old value read before '
+           'FieldUpdate carries the path of the key written, the old value read before '
            'the write and the value actually stored', f.loc, '; '.join(problems))
 
 
@@ -791,6 +798,8 @@ def rule_j(ctx):
 
 def run(ctx):
   ctx.consult(*FILES)
+  from sa.rules import c10 as _c10
+  _c10.rule_k(ctx, 'C09.k')   # the path carried by a FieldUpdate addresses the changed node
   rule_a(ctx)
   rule_b(ctx)
   rule_c(ctx)
